@@ -276,6 +276,71 @@ theorem C02_mangle_injective_descvar (i j : Nat) (k k' : AKind) (sup sup' : Opti
   have := digit_split _ _ _ _ (nonDigit_rest k sup nm hn hs) (nonDigit_rest k' sup' nm' hn' hs') h
   exact digits_inj i j this.1
 
+/-! ### companion names: exactly when do two declarations get the same C++ class / file -/
+
+/-- identifiers `_var`, `_agg` -/
+def idVar : Ident := [.us, .letter 21, .letter 0, .letter 17]
+def idAgg : Ident := [.us, .letter 0, .letter 6, .letter 6]
+
+theorem className_append (t suf : Ident) (ht : t ≠ []) : className (t ++ suf) = className t ++ suf.map lo := by
+  cases t with
+  | nil => exact absurd rfl ht
+  | cons c cs => simp [className]
+
+/-- EXACT characterisation of the collision behind finding F1: the class generated for enumeration type `t`
+    (`Sdai<T>_var`) is the class generated for entity (or select) `e` **iff** `e` is `t` followed by `_var`.  Nothing
+    else collides with an enumeration's class. -/
+theorem C02_mangle_collision_iff_enum (t e : Ident) (ht : t ≠ []) :
+    enumClassName t = className e ↔ e = t ++ idVar := by
+  have h : enumClassName t = className (t ++ idVar) := by
+    rw [className_append t idVar ht]; rfl
+  rw [h]
+  constructor
+  · intro heq; exact (C02_mangle_injective_class _ _ heq).symm
+  · intro heq; rw [heq]
+
+/-- the same for the aggregate class of a select (`Sdai<T>_agg`): it is the class of entity/select `e` iff `e = t_agg` -/
+theorem C02_mangle_collision_iff_select_agg (t e : Ident) (ht : t ≠ []) :
+    selectAggClassName t = className e ↔ e = t ++ idAgg := by
+  have h : selectAggClassName t = className (t ++ idAgg) := by
+    rw [className_append t idAgg ht]; rfl
+  rw [h]
+  constructor
+  · intro heq; exact (C02_mangle_injective_class _ _ heq).symm
+  · intro heq; rw [heq]
+
+/-- Select classes (`SelectName`) are named injectively, and never like an entity class of a different identifier
+    (entities, selects and the other defined types share one EXPRESS scope, so equal identifiers cannot both be declared). -/
+theorem C02_mangle_injective_select (a b : Ident) (h : selectClassName a = selectClassName b) : a = b :=
+  C02_mangle_injective_class a b h
+
+theorem wrap_cancel {α : Type} (p x y q : List α) (h : p ++ x ++ q = p ++ y ++ q) : x = y :=
+  List.append_cancel_left (List.append_cancel_right h)
+
+/-- File names: `entity/<Class>.h|.cc` are injective in the entity, `type/<Class>[_var].h` in the type; an entity file is
+    never a type file; an enumeration's file is a select's file iff the select is named `<enum>_var`. -/
+theorem C02_mangle_injective_files (a b : Ident) :
+    (entityHeader a = entityHeader b → a = b) ∧ (entityImpl a = entityImpl b → a = b) ∧
+    (enumHeader a = enumHeader b → a = b) ∧ (selectHeader a = selectHeader b → a = b) ∧
+    entityHeader a ≠ enumHeader b ∧ entityHeader a ≠ selectHeader b ∧
+    (a ≠ [] → (enumHeader a = selectHeader b ↔ b = a ++ idVar)) := by
+  refine ⟨?_, ?_, ?_, ?_, ?_, ?_, ?_⟩
+  · intro h; exact C02_mangle_injective_class a b (wrap_cancel _ _ _ _ h)
+  · intro h; exact C02_mangle_injective_class a b (wrap_cancel _ _ _ _ h)
+  · intro h
+    have h1 : className a ++ suffixVar = className b ++ suffixVar := wrap_cancel _ _ _ _ h
+    exact C02_mangle_injective_class a b (List.append_cancel_right h1)
+  · intro h; exact C02_mangle_injective_class a b (wrap_cancel _ _ _ _ h)
+  · intro h; simp [entityHeader, enumHeader, dirEntity, dirType] at h
+  · intro h; simp [entityHeader, selectHeader, dirEntity, dirType] at h
+  · intro ha
+    constructor
+    · intro h
+      exact (C02_mangle_collision_iff_enum a b ha).mp (wrap_cancel _ _ _ _ h)
+    · intro h
+      unfold enumHeader selectHeader selectClassName
+      rw [(C02_mangle_collision_iff_enum a b ha).mpr h]
+
 /-- Across categories the suffix scheme is NOT injective: the class of enumeration type `a` is
     `SdaiA_var`, which is also the class of an entity named `a_var` (both may be declared in one valid
     schema).  Replayed on the real generator: the emitted code does not compile (notes/C02.md, finding 2). -/
